@@ -5,7 +5,7 @@
      Extract Inductive sumor => option [ Some None ].    Extract Inlined Constant andb/orb/negb/fst/snd.
    nat, positive, N, Z, Q stay extracted inductive types.  No Extract Constant of our own. *)
 From Coq Require Import List PArith FMapPositive Bool QArith Qreduction.
-Require Import NV.Base NV.Shell2 NV.Shell2Loop NV.Shell2Ctl NV.EstimExec NV.Union2 NV.PriorModel NV.PriorAsIs NV.Crash.
+Require Import NV.Base NV.Shell2 NV.Shell2Loop NV.Shell2LoopEE NV.Shell2Ctl NV.EstimExec NV.Union2 NV.PriorModel NV.PriorAsIs NV.Crash.
 From Coq Require Extraction ExtrOcamlBasic.
 
 (* table-backed oracles for replays of the shell machine *)
@@ -28,7 +28,8 @@ Definition cstep_t (t : tbl) (vt : vtbl) (ni : vid) (cc : ctlcfg) (nb : nat) :=
   Shell2Ctl.cstep (t_contains t) (t_cube t) (t_lik t) (t_blob t) nb (v_rank vt) ni cc.
 Definition trig_ok_t (cc : ctlcfg) := Shell2Ctl.iter_trigger_ok cc.
 Definition run_call_t (t : tbl) (nb : nat) := Shell2Loop.run_call (t_contains t) (t_cube t) (t_lik t) (t_blob t) nb.
-Extraction "shell.ml" step_t run_call_t cstep_t trig_ok_t v_rank v_add v_empty Shell2Ctl.cinit Shell2Ctl.mkCC t_add t_empty Shell2.init Shell2Loop.mkRC Shell2Loop.mkIter.
+Definition run_call_fl_t (t : tbl) (nb : nat) := Shell2LoopEE.run_call_fl (t_contains t) (t_cube t) (t_lik t) (t_blob t) nb.
+Extraction "shell.ml" step_t run_call_t run_call_fl_t cstep_t trig_ok_t v_rank v_add v_empty Shell2Ctl.cinit Shell2Ctl.mkCC t_add t_empty Shell2.init Shell2Loop.mkRC Shell2Loop.mkIter.
 Extraction "estim.ml" EstimExec.Ztot EstimExec.neffQ EstimExec.volQ EstimExec.zQ EstimExec.neffShQ EstimExec.mkSh EstimExec.mkDy.
 Extraction "union.ml" Union2.ustep Union2.uinit.
 Extraction "prior.ml" PriorModel.add_parameter PriorAsIs.add_asis PriorModel.dimensionality PriorModel.empty
